@@ -24,6 +24,30 @@ import numpy as np
 from harness.core import MachineryError
 from harness.tlc import printed_tuples, run_tlc
 
+_EX = None
+
+
+def pool_map(fn, items, chunksize: int = 1, procs: int | None = None) -> list:
+    """Ordered parallel map on ONE spawn pool per check invocation (workers import torch / pulser /
+    emu_* once; same initialiser as harness.pool: hooks on, one torch thread)."""
+    import atexit
+    import concurrent.futures as cf
+    import multiprocessing as mp
+    import os
+
+    from harness import pool as hp
+
+    global _EX
+    items = list(items)
+    if not items:
+        return []
+    if _EX is None:
+        n = procs or int(os.environ.get("VERIF_PROCS", "16"))
+        _EX = cf.ProcessPoolExecutor(max_workers=max(1, n), mp_context=mp.get_context("spawn"), initializer=hp._init)
+        atexit.register(lambda: _EX.shutdown(wait=False, cancel_futures=True))
+    return list(_EX.map(fn, items, chunksize=max(1, chunksize)))
+
+
 DT = 10
 OFF, GROUND, UNK = -2, -3, -9
 PAD = [-1, -1, -1, -1]
@@ -205,6 +229,30 @@ def ref_from_run(case: dict, obs: dict, dense_ref: dict) -> dict | None:
             "U": dense_ref["U"], "delta0": dense_ref["delta0"], "target_times": dense_ref["target_times"], "from_run": case["id"]}
 
 
+def ident_tables(phys: dict) -> dict:
+    """Per-label step-0 drive values and interaction matrix (what identifies an atom's data at a site)."""
+    from harness.gen import seqs
+
+    n = phys["n"]
+    full = seqs.build_sequence(seq_spec(phys, list(range(n))))
+    local, _, dur = seqs.pulser_local_samples(full)
+    tt = seqs.ref_target_times(dur, DT, eval_times(phys))
+    om, de, ph = seqs.ref_rows(local, [f"a{a}" for a in range(n)], tt, dur)
+    return {"U": seqs.ref_interaction(full).tolist(), "delta0": de[0].tolist(), "omega0": om[0].tolist(), "target_times": tt,
+            "occ": None, "corr": None, "energy": None, "probs": None}
+
+
+def self_ref(case: dict, obs: dict, tables: dict) -> dict:
+    """No independent values available (beyond dense / emu-sv reach): the run's own values, so that only
+    what needs no reference is decided (atom order, site-level labels, dark positions)."""
+    n = case["phys"]["n"]
+    r = ref_from_run(case, obs, tables)
+    if r is not None:
+        return r
+    return {"occ": [[0.0] * n] * 3, "corr": np.zeros((n, n)).tolist(), "energy": 0.0, "probs": None,
+            "U": tables["U"], "delta0": tables["delta0"], "target_times": tables["target_times"]}
+
+
 def ref_key(phys_id: Any, dark: list[bool], dim: int) -> str:
     return json.dumps([phys_id, [bool(x) for x in dark], dim])
 
@@ -262,7 +310,7 @@ def run_case(case: dict) -> dict:
         seq = seqs.build_sequence(seq_spec(phys, rho))
         obs = [
             Occupation(evaluation_times=ets), CorrelationMatrix(evaluation_times=[1.0]),
-            BitStrings(evaluation_times=[1.0], num_shots=int(case.get("shots", 1000))), Energy(evaluation_times=[1.0]),
+            BitStrings(evaluation_times=[0.0, 1.0], num_shots=int(case.get("shots", 1000))), Energy(evaluation_times=[1.0]),
         ]
         init = None
         amplitudes = None
@@ -329,6 +377,25 @@ def run_case(case: dict) -> dict:
                     setattr(imc2, name, mtx)
                 sd = dataclasses.replace(sd, omega=omega, delta=delta, phi=phi, interaction_matrix=imc2,
                                          bad_atoms=bad, state_prep_error=0.1)
+            elif mode == "pulser-trajectory":
+                # the REAL pipeline: Pulser draws the badly prepared atoms itself (and zeroes their drives and
+                # interactions); numpy seeds are tried until its draw is the scenario's mask
+                from pulser import NoiseModel
+
+                found = None
+                for s in range(seed * 1000, seed * 1000 + 4000):
+                    np.random.seed(s % (2**32))
+                    kw2 = dict(kw)
+                    kw2["noise_model"] = NoiseModel(state_prep_error=0.5)
+                    cfg2 = type(cfg)(**{**({"precision": case.get("precision", 1e-8), "optimize_qubit_ordering": bool(case["reorder"])} if backend == "mps" else {"krylov_tolerance": 1e-10, "gpu": False}), **kw2})
+                    sd2 = next(iter(PulserData(sequence=seq, config=cfg2, dt=cfg2.dt).get_sequences()))
+                    if tuple(bool(b) for b in sd2.bad_atoms) == bad:
+                        found = (sd2, cfg2)
+                        break
+                if found is None:
+                    raise MachineryError(f"Pulser never drew the mask {bad} in 4000 seeds")
+                sd, cfg = found
+                out["pulser_seed"] = s
             else:
                 raise MachineryError(f"unknown mode {mode}")
             res = B._run_from_sequence_data(sd, cfg)
@@ -341,6 +408,7 @@ def run_case(case: dict) -> dict:
         out["corr"] = np.real(np.asarray(res.correlation_matrix[-1])).astype(float).tolist() if "correlation_matrix" in tags else None
         out["energy"] = float(res.energy[-1]) if "energy" in tags else None
         out["bitstrings"] = dict(res.bitstrings[-1]) if "bitstrings" in tags else None
+        out["bitstrings0"] = dict(res.bitstrings[0]) if "bitstrings" in tags and len(res.bitstrings) > 1 else None
         ftag = [t for t in tags if t.startswith("fidelity")]
         out["fidelity"] = float(np.real(complex(getattr(res, ftag[0])[-1]))) if ftag else None
     except BaseException as ex:  # the code under test refused / crashed: an outcome, not a harness failure
@@ -405,6 +473,15 @@ def binom_tail(k: int, m: int, p: float) -> float:
     return float(min(1.0, 2 * min(lo, hi)))
 
 
+def binom_range(k: int, m: int, lo: float, hi: float) -> float:
+    """Composite hypothesis p in [lo, hi] (the reference value with its numeric budget): the largest
+    p-value over the interval is attained at the admissible p closest to k / m."""
+    lo, hi = max(0.0, lo), min(1.0, hi)
+    if m == 0:
+        return 1.0
+    return binom_tail(k, m, min(hi, max(lo, k / m)))
+
+
 def _match_label(val: float, table: list[float], scale: float = 1.0) -> int:
     hits = [a for a, v in enumerate(table) if abs(v - val) <= 1e-7 * max(1.0, abs(v), scale)]
     return hits[0] if len(hits) == 1 else UNK
@@ -416,6 +493,7 @@ def project(case: dict, obs: dict, ref: dict, alpha: float, tol: float | None = 
     phys = case["phys"]
     n = phys["n"]
     rho = case["rho"]
+    npos = len(rho)                      # positions of every result (= n, or fewer for a reduced register)
     dark = [bool(x) for x in case["dark"]] if case["spe"] else [False] * n
     mps = case["backend"] == "mps"
     absent = PAD if mps else SV_ABSENT
@@ -492,9 +570,9 @@ def project(case: dict, obs: dict, ref: dict, alpha: float, tol: float | None = 
         occ = None
     else:
         occ = np.asarray(obs["occupation"])
-    for j in range(n):
+    for j in range(npos):
         a = rho[j]
-        if occ is None or occ.ndim != 2 or occ.shape[1] != n:
+        if occ is None or occ.ndim != 2 or occ.shape[1] != npos:
             occ_tags.append(UNKNOWN)
             continue
         err = float(np.max(np.abs(occ[:, j] - rocc[:, a])))
@@ -508,14 +586,14 @@ def project(case: dict, obs: dict, ref: dict, alpha: float, tol: float | None = 
     # correlations
     rc = np.asarray(ref["corr"])
     corr_tags = []
-    if obs["corr"] is None or np.asarray(obs["corr"]).shape != (n, n):
+    if obs["corr"] is None or np.asarray(obs["corr"]).shape != (npos, npos):
         rec["numeric"] = "correlation-missing"
-        corr_tags = [[[UNKNOWN, UNKNOWN] for _ in range(n)] for _ in range(n)]
+        corr_tags = [[[UNKNOWN, UNKNOWN] for _ in range(npos)] for _ in range(npos)]
     else:
         C = np.asarray(obs["corr"])
-        for i in range(n):
+        for i in range(npos):
             row = []
-            for j in range(n):
+            for j in range(npos):
                 err = abs(C[i, j] - rc[rho[i], rho[j]])
                 worst = max(worst, err / tol)
                 ti = absent if dark[rho[i]] else site(rho[i])
@@ -539,35 +617,47 @@ def project(case: dict, obs: dict, ref: dict, alpha: float, tol: float | None = 
     bs = obs["bitstrings"]
     if bs is None:
         rec["numeric"] = "bitstrings-missing"
-        bits_tags = [UNKNOWN] * n
+        bits_tags = [UNKNOWN] * npos
     else:
         shots = sum(bs.values())
-        ok_len = all(len(s) == n and set(s) <= {"0", "1"} for s in bs)
+        ok_len = all(len(s) == npos and set(s) <= {"0", "1"} for s in bs)
         pmin = 1.0
-        eps = 10 * tol
+        eps = 2 * tol
 
-        def clamp(p: float, is_dark: bool) -> float:
-            return 0.0 if is_dark else min(1.0 - eps, max(eps, p))
+        def ptest(k: int, m: int, p: float, is_dark: bool) -> float:
+            # a dark atom is NEVER measured in r; otherwise the reference value is known up to the budget
+            return (1.0 if k == 0 else 0.0) if is_dark else binom_range(k, m, p - eps, p + eps)
 
         pfin = [float(rocc[-1, a]) for a in range(n)]
-        for j in range(n):
+        pini = [float(rocc[0, a]) for a in range(n)]
+        bs0 = obs.get("bitstrings0")
+        ok0 = bs0 is not None and all(len(s) == npos and set(s) <= {"0", "1"} for s in bs0)
+        for j in range(npos):
             a = rho[j]
             if not ok_len:
                 bits_tags.append(UNKNOWN)
                 continue
             ones = sum(c for s, c in bs.items() if s[j] == "1")
-            pv = binom_tail(ones, shots, clamp(pfin[a], dark[a]))
+            ones0 = sum(c for s, c in bs0.items() if s[j] == "1") if ok0 else None
+
+            def pval(b: int) -> float:
+                pv1 = ptest(ones, shots, pfin[b], dark[b])
+                if ones0 is not None:  # the samples taken at t = 0 show the initial letters
+                    pv1 = min(pv1, ptest(ones0, sum(bs0.values()), pini[b], dark[b]))
+                return pv1
+
+            pv = pval(a)
             pmin = min(pmin, pv)
             if pv >= alpha:
                 bits_tags.append(absent if dark[a] else site(a))
             else:
-                alt = [b for b in range(n) if binom_tail(ones, shots, clamp(pfin[b], dark[b])) >= alpha]
+                alt = [b for b in range(n) if pval(b) >= alpha]
                 bits_tags.append((absent if dark[alt[0]] else site(alt[0])) if len(alt) == 1 else UNKNOWN)
         if ok_len and all(t != UNKNOWN for t in bits_tags):
-            for i in range(n):
-                for j in range(i + 1, n):
+            for i in range(npos):
+                for j in range(i + 1, npos):
                     both = sum(c for s, c in bs.items() if s[i] == "1" and s[j] == "1")
-                    pv = binom_tail(both, shots, clamp(float(rc[rho[i], rho[j]]), dark[rho[i]] or dark[rho[j]]))
+                    pv = ptest(both, shots, float(rc[rho[i], rho[j]]), dark[rho[i]] or dark[rho[j]])
                     pmin = min(pmin, pv)
                     if pv < alpha and rec["numeric"] == "ok":
                         rec["numeric"] = "bitstring-distribution-changed"
@@ -576,13 +666,13 @@ def project(case: dict, obs: dict, ref: dict, alpha: float, tol: float | None = 
                 cnt: Counter = Counter()
                 for s, c in bs.items():
                     lab = ["0"] * n
-                    for j in range(n):
+                    for j in range(npos):
                         lab[rho[j]] = s[j]
                     cnt["".join(lab)] += c
                 for s in set(cnt) | set(probs):
                     pr = probs.get(s, 0.0)
                     zero = any(dark[a] and s[a] == "1" for a in range(n))
-                    pv = binom_tail(cnt.get(s, 0), shots, 0.0 if zero else min(1.0 - eps, max(eps, pr)))
+                    pv = ptest(cnt.get(s, 0), shots, pr, zero)
                     pmin = min(pmin, pv)
                     if pv < alpha and rec["numeric"] == "ok":
                         rec["numeric"] = "bitstring-distribution-changed"
@@ -701,3 +791,145 @@ def detect_variant(ctx) -> tuple[str, dict]:
 
 def all_perms(n: int) -> list[list[int]]:
     return [list(p) for p in itertools.permutations(range(n))]
+
+
+# ======================================================================================= replay engine
+LOOSE_FLOOR = {"plain": 2e-3, "given": 2e-2, "slm": 0.35}
+
+
+def flavour(phys: dict) -> str:
+    return "slm" if phys["slm"] else ("given" if phys["init"] else "plain")
+
+
+def loose_tol(case: dict, nsteps: int) -> float:
+    """Budget for a TDVP run against the EXACT dense reference.  2-site TDVP started from a product
+    state has a projection error that the configured precision does not control (measured on the
+    repaired tree, dt = 10 ns, forced site orders, n <= 5: plain <= 3e-5, given <= 6e-4, SLM switch-on
+    <= 5e-2); the statement grants "discretisation error", so this comparison only pins labels grossly.
+    The sharp oracle is the same-site-order run (see tight_ref_case)."""
+    return max(tol_for(case, nsteps), LOOSE_FLOOR[flavour(case["phys"])] * (1.0 if case["phys"]["n"] <= 5 else 2.0))
+
+
+def site_order(case: dict) -> list[int]:
+    """The REQUIRED site order of a scenario: atom rho[optp[k]] at site k (register order if reordering is off)."""
+    rho = case["rho"]
+    return [rho[k] for k in case["optp"]] if case["reorder"] and case["backend"] == "mps" else list(rho)
+
+
+def tight_ref_case(case: dict, policy: str) -> tuple[str, dict] | None:
+    """The run that must be the SAME computation as `case` if every index space is handled correctly:
+    'same-site-order': the register inserted directly in the required site order, reordering off
+                       (no permutation logic runs at all);
+    'reduced':         additionally without the dark atoms (C25: "as in the same sequence without the bad atoms")."""
+    if case["backend"] != "mps":
+        return None
+    n = case["phys"]["n"]
+    sig = site_order(case)
+    dark = [bool(x) for x in case["dark"]] if case["spe"] else [False] * n
+    if policy == "same-site-order":
+        if not case["reorder"]:
+            return None
+        rc = {**case, "rho": sig, "optp": list(range(n)), "reorder": False, "force": False}
+    elif policy == "reduced":
+        if not any(dark):
+            if not case["reorder"]:
+                return None
+            rc = {**case, "rho": sig, "optp": list(range(n)), "reorder": False, "force": False}
+        else:
+            good = [a for a in sig if not dark[a]]
+            if len(good) < 2:
+                return None
+            rc = {**case, "rho": good, "optp": list(range(len(good))), "reorder": False, "force": False, "spe": False,
+                  "dark": [False] * n, "mode": "reduced"}
+    else:
+        raise MachineryError(policy)
+    key = json.dumps([case["phys"]["id"], rc["rho"], rc["dark"] if rc["spe"] else None, rc["given"], rc["dim"], rc.get("mode"), rc.get("extra_noise"), rc.get("precision")])
+    rc["id"] = "ref:" + key
+    rc["is_ref"] = True
+    return key, rc
+
+
+def _dense_job(job: tuple) -> dict:
+    return reference(job[0], job[1], job[2])
+
+
+def replay_cases(ctx, cases: list[dict], *, policy: str, name: str, alpha: float, procs: int | None = None) -> list[dict]:
+    """Run the cases and their same-computation references on the real code, decide the numeric atoms,
+    let TLC evaluate the requirement of QubitOrder.tla on every projected run."""
+    pmap = pool_map
+
+    refcases: dict[str, dict] = {}
+    link: dict[Any, str] = {}
+    for c in cases:
+        r = tight_ref_case(c, policy)
+        if r is not None:
+            refcases.setdefault(r[0], r[1])
+            link[c["id"]] = r[0]
+    allc = cases + list(refcases.values())
+    ctx.log(f"{name}: {len(cases)} scenario runs + {len(refcases)} same-computation reference runs")
+    outs = pmap(run_case, allc, chunksize=max(1, len(allc) // 400))
+    by_id = {o["id"]: o for o in outs}
+    dense: dict[str, dict] = {}
+
+    def dense_ref(c: dict) -> dict:
+        dark = [(a not in c["rho"]) or bool(c["spe"] and c["dark"][a]) for a in range(c["phys"]["n"])]
+        k = ref_key(c["phys"]["id"], dark, c["dim"])
+        if k not in dense:
+            dense[k] = reference(c["phys"], dark, c["dim"])
+        return dense[k]
+
+    need = {}
+    for c in allc:
+        dk = [(a not in c["rho"]) or bool(c["spe"] and c["dark"][a]) for a in range(c["phys"]["n"])]
+        need.setdefault(ref_key(c["phys"]["id"], dk, c["dim"]), (c["phys"], dk, c["dim"]))
+    keys = list(need)
+    for k, r in zip(keys, pmap(_dense_job, [need[k] for k in keys], chunksize=max(1, len(keys) // 200))):
+        dense[k] = r
+    results = []
+    run_refs: dict[str, dict | None] = {}
+    records = []
+    for c in allc:
+        o = by_id[c["id"]]
+        dref = dense_ref(c)
+        nsteps = len(dref["target_times"]) - 1
+        kind = "dense"
+        ref, tol, joint = dref, (tol_for(c, nsteps) if c["backend"] == "sv" else loose_tol(c, nsteps)), c["backend"] == "sv"
+        if not c.get("is_ref") and c["id"] in link:
+            k = link[c["id"]]
+            if k not in run_refs:
+                rc = refcases[k]
+                # for the reduced register the reference run's dense reference differs only in labels kept
+                run_refs[k] = ref_from_run(rc, by_id[rc["id"]], dense_ref(c))
+            if run_refs[k] is not None:
+                ref, tol, joint, kind = run_refs[k], tol_for(c, nsteps), False, "same-computation-run"
+        rec = project(c, o, ref, alpha, tol=tol, joint=joint)
+        results.append({"case": c, "obs": o, "rec": rec, "ref_kind": kind})
+        records.append({"id": len(records) + 1, "sc": scen_of(c) if len(c["rho"]) == c["phys"]["n"] else None, "obs": rec})
+    # reduced-register reference runs have fewer atoms than the scenario vocabulary: give them their own scenario
+    for r, x in zip(records, results):
+        if r["sc"] is None:
+            c = x["case"]
+            m = len(c["rho"])
+            lab = {a: i for i, a in enumerate(sorted(c["rho"]))}
+            r["sc"] = {"backend": c["backend"], "n": m, "rho": [lab[a] for a in c["rho"]], "optp": list(range(m)), "reorder": False,
+                       "spe": False, "dark": [False] * m, "given": bool(c["given"]), "dim": int(c["dim"])}
+            r["obs"] = relabel_record(x["rec"], lab, c["phys"]["n"], c["rho"])
+        r["obs"] = {k: r["obs"][k] for k in ("outcome", "atomOrder", "ham", "imat", "occ", "bits", "corr", "numeric")}
+    verd = tlc_observed(ctx, name, records)
+    ctx.traces_validated += len(records)
+    for r, x in zip(records, results):
+        x["verdict_full"], x["verdict_res"] = verd[r["id"]]
+    return results
+
+
+def relabel_record(rec: dict, lab: dict[int, int], n: int, kept: list[int]) -> dict:
+    """Rename labels (for a reduced-register run: kept labels -> 0..m-1) and drop absent positions."""
+    def f(x: Any) -> Any:
+        if isinstance(x, list):
+            return [f(y) for y in x]
+        return lab.get(x, x) if isinstance(x, int) and x >= 0 else x
+
+    out = dict(rec)
+    for k in ("atomOrder", "ham", "imat", "occ", "bits", "corr"):
+        out[k] = f(rec[k])
+    return out
